@@ -307,7 +307,7 @@ def run_check(pid: str, tier: str) -> int:
             for f in futs:
                 f.cancel()
             ex.shutdown(wait=False, cancel_futures=True)
-            for p in list(getattr(ex, "_processes", {}).values()):
+            for p in list((getattr(ex, "_processes", None) or {}).values()):
                 try:
                     p.terminate()
                 except Exception:
